@@ -14,8 +14,8 @@ from ..core import scratch_dir
 
 ID = "C19"
 SHAPES = False      # layout / object-history dimensions do not apply: the inputs are names and files
-MODULES = ["TWV.Properties.C19", "TWV.Properties.C18"]
-TRANSLATORS = ["t2_tables"]
+MODULES = ["TWV.Tie.LoaderProtocol", "TWV.Properties.C19", "TWV.Properties.C18"]
+TRANSLATORS = ["t7_loader", "t2_tables"]
 TIE = ("trace validation of the real loader against the protocol model: urlretrieve / _sha256 / np.loadtxt / pickle.dump / "
        "os.rename / os.path.exists / pickle.load are wrapped from the outside; the stutter-free sequence of file-system "
        "states, the outcome and the number of download attempts must be a run of the model")
